@@ -278,7 +278,9 @@ theorem globSplit_lits (f : Flags) (isBytes : Bool) (segs : List Name) (hp : Pla
   have hnb : needBase (SplitCfg.ofFlags f isBytes) (litParts (s1 :: r1)) = true := by
     have : (SplitCfg.ofFlags f isBytes).flags.extmatchbase = true := hem
     simp [needBase, this, litParts]
-  simp [withBase, hnb, hbase]
+  have hgs : ((litParts (s1 :: r1)).head?.map (·.isGlobstar)).getD false = false := rfl
+  simp only [withBase, hnb, hgs, Bool.not_false, Bool.and_true, if_true]
+  simp [hbase]
 
 /-! ### `WcParse` on literal text with separators, `extmatchbase` still set -/
 
